@@ -612,6 +612,77 @@ def jobs(budget):
         yield (units, k % END_FORMS, (k // END_FORMS) % SPACINGS)
 
 
+# ------------------------------------------------------------------ sessions
+SESSION_PARENT = {
+    "without": "module geo\n  implicit none\n  real :: scale_f\nend module geo\n",
+    "with": ("module geo\n  implicit none\n  real :: scale_f\n  interface\n    module function perimeter(r) result(p)\n      real, intent(in) :: r\n"
+             "      real :: p\n    end function perimeter\n    module subroutine draw(n)\n      integer :: n\n    end subroutine draw\n  end interface\nend module geo\n"),
+}
+SESSION_SUB = ("submodule (geo) geo_impl\n  implicit none\ncontains\n  module procedure perimeter\n    p = 2.0 * r\n  end procedure perimeter\n"
+               "  module procedure draw\n  end procedure draw\n  subroutine helper()\n  end subroutine helper\nend submodule geo_impl\n")
+
+
+def _outline(s, path):
+    r = s.result("textDocument/documentSymbol", {"textDocument": Server.tdpp(path, 0, 0)["textDocument"]})
+    if not isinstance(r, list):
+        return r
+    return sorted((x["name"].lower(), x["kind"], (x.get("containerName") or "").lower(), x["location"]["range"]["start"]["line"],
+                   x["location"]["range"]["end"]["line"]) for x in r)
+
+
+def session_jobs():
+    for first in ("without", "with"):
+        for ask_before in (False, True):
+            for delivery in ("change_save", "disk_open", "disk_open_close"):
+                for sub_first in (False, True):
+                    yield (first, ask_before, delivery, sub_first)
+
+
+def session_case(job, acc: Acc):
+    """The outline is a function of the files, not of what was asked before: the interface of a separate module
+    procedure arrives in (or leaves) the parent module's file while the submodule's file stays as it is; the
+    submodule's outline (asked before the change or not) must be the one a fresh server gives."""
+    first, ask_before, delivery, sub_first = job
+    second = "with" if first == "without" else "without"
+    sc = worker_scratch("c04")
+    sc.wipe()
+    root = os.path.realpath(os.path.join(sc.path, "w"))
+    os.makedirs(root)
+    pn, sn = ("z_geo.f90", "a_impl.f90") if sub_first else ("a_geo.f90", "z_impl.f90")
+    ppath, spath = os.path.join(root, pn), os.path.join(root, sn)
+    with open(ppath, "w") as f:
+        f.write(SESSION_PARENT[first])
+    with open(spath, "w") as f:
+        f.write(SESSION_SUB)
+    s = Server([])
+    s.initialize(root)
+    if ask_before:
+        _outline(s, spath)
+        _outline(s, ppath)
+    if delivery == "change_save":
+        s.open(ppath)
+        s.change(ppath, [{"text": SESSION_PARENT[second]}])
+        with open(ppath, "w") as f:
+            f.write(SESSION_PARENT[second])
+        s.save(ppath)
+    else:
+        with open(ppath, "w") as f:
+            f.write(SESSION_PARENT[second])
+        s.open(ppath)
+        if delivery == "disk_open_close":
+            s.close(ppath)
+    got = {pn: _outline(s, ppath), sn: _outline(s, spath)}
+    f2 = Server([])
+    f2.initialize(root)
+    want = {pn: _outline(f2, ppath), sn: _outline(f2, spath)}
+    acc.case(nontrivial_key=job, outcome=(first, len(want[sn]) if isinstance(want[sn], list) else -1))
+    for n in (pn, sn):
+        if got[n] != want[n]:
+            acc.violation(Violation("sessions", {"family": "sessions", "first": first, "asked_before": ask_before, "delivery": delivery, "file": "submodule" if n == sn else "parent",
+                                                 "obs": "outline_differs_from_fresh_server"}, {"job": list(job)}, want[n], got[n],
+                                    what=f"{job}: outline of {n} differs from a fresh server's: {[x for x in (got[n] or []) if x not in (want[n] or [])][:3]}"))
+
+
 def main(ctx):
     budget = 3 if ctx.quick else 4
     ctx.rule = (f"all structure trees with <= {budget} nodes (plus all trees with {budget + 1} nodes in one rendering each) (units: module, submodule, program, external subroutine/function; "
@@ -628,6 +699,9 @@ def main(ctx):
     nacc = core.pmap(check_file, nesting_pairs(), chunk=16, budget_s=120, label="C04/nesting")
     ctx.add_family("nesting_pairs", nacc, what="7 nestable constructs (BLOCK, DO, named DO, label-terminated DO ending in CONTINUE / in a labelled END DO, IF, ASSOCIATE) around each of the 10 "
                    "constructs (optionally followed by a plain DO), in the first of two sibling module procedures, 15 renderings")
+    zacc = core.pmap(session_case, list(session_jobs()), chunk=2, budget_s=120, label="C04/sessions")
+    ctx.add_family("sessions", zacc, what="module + submodule with `module procedure` implementations in two files; the interfaces arrive in / leave the parent's file "
+                   "(3 ways of delivering the change) with the outlines asked before or not, both file orders: outlines equal a fresh server's")
     sacc = core.pmap(collision_case, sorted(_collision_programs()), chunk=1, budget_s=60, label="C04/same_names")
     ctx.add_family("same_names", sacc, what="distinct entities of one file that legally share a name (constructor idiom, generic named "
                    "like its specific, same members in two modules, same component in two types, module procedure and internal procedure)")
@@ -636,6 +710,9 @@ def main(ctx):
 def replay(rec):
     c = rec["case"]
     acc = Acc()
+    if rec["family"] == "sessions":
+        session_case(tuple(c["job"]), acc)
+        return [v.to_json("C04") for v in acc.violations] or None
     if rec["family"] == "same_names":
         collision_case(c["program"], acc)
         return [v.to_json("C04") for v in acc.violations] or None
